@@ -44,7 +44,7 @@ def handle (st : DState) (line : String) : DState × List String :=
       match st.skelH with
       | some h => ({ st with skelH := none, skelObs := #[] }, skelReplay h st.skelObs.toList)
       | none => (st, ["error skel.end without begin"])
-    else if cmd.startsWith "ldl." || cmd.startsWith "util." || cmd.startsWith "ord." then
+    else if cmd.startsWith "ldl." || cmd.startsWith "util." || cmd.startsWith "ord." || cmd.startsWith "csc." then
       match runP (ldlStep cmd) args with
       | .ok out => (st, out)
       | .error e => (st, ["error " ++ e])
